@@ -334,6 +334,46 @@ func genCompCase(r *kit.Rand, tier string) CompCase {
 		rounds = r.Range(1, 10)
 	}
 	var tag uint32
+	c.Knobs.CompactionLevels = kit.PickOf(r, 0, 0, 2, 3, 5)
+	if r.Bool(0.1) {
+		// A deep tree: every range compaction moves the tables it takes below
+		// all existing levels, so a run of them digs deeper than the
+		// configured number of levels. Then a key that lives down there is
+		// deleted or overwritten, the tables settle, the process restarts (the
+		// in-memory tombstone tracker is empty) and the shallow levels are
+		// compacted.
+		lo, hi := ks.Keys[0], ks.Keys[0]
+		for _, k := range ks.Keys {
+			if bytes.Compare(k, lo) < 0 {
+				lo = k
+			}
+			if bytes.Compare(k, hi) > 0 {
+				hi = k
+			}
+		}
+		victim := ks.Pick(r)
+		for d, depth := 0, r.Range(2, 10); d < depth; d++ {
+			tag++
+			c.Ops = append(c.Ops, kit.Op{K: "put", Key: victim, Tag: tag, Len: r.Range(1, 30)})
+			if r.Bool(0.5) {
+				tag++
+				c.Ops = append(c.Ops, kit.Op{K: "put", Key: ks.Pick(r), Tag: tag, Len: r.Range(1, 30)})
+			}
+			c.Ops = append(c.Ops, kit.Op{K: "settle"}, kit.Op{K: "crange", Key: lo, End: append(append([]byte(nil), hi...), 0xff)})
+		}
+		if r.Bool(0.7) {
+			c.Ops = append(c.Ops, kit.Op{K: "del", Key: victim})
+		} else {
+			tag++
+			c.Ops = append(c.Ops, kit.Op{K: "put", Key: victim, Tag: tag, Len: r.Range(0, 30)})
+		}
+		c.Ops = append(c.Ops, kit.Op{K: "settle"})
+		if r.Bool(0.8) {
+			c.Ops = append(c.Ops, kit.Op{K: "reopen"})
+		}
+		c.Ops = append(c.Ops, kit.Op{K: kit.PickOf(r, "compact", "compact", "sleep"), D: 5500})
+		rounds = r.Range(0, 2)
+	}
 	for round := 0; round < rounds; round++ {
 		// writes spread over several flushes
 		part := kit.GenProgram(r, kit.ProgOpts{Keys: ks, MinOps: 2, MaxOps: 14, WTxn: 8, WBatch: 5, WFlush: 14})
